@@ -30,6 +30,7 @@ type Program struct {
 	callers   map[*ssa.Function][]Call
 	alias     map[*ssa.Function]string // renamed function -> recorded identity
 	Renames   []string
+	Normalized []string // new helpers inlined by the normalisation pre-pass (normalize.go)
 	addrTaken map[*ssa.Function]bool
 	invokedMethods map[string]bool
 	importing map[*ssa.Function]bool
@@ -165,6 +166,7 @@ func Load(repoDir, tier string, overlay map[string][]byte) (*Program, error) {
 	}
 	p.resolveRenames()
 	currentProgram = p
+	p.dropDeadNewHelpers()
 	return p, nil
 }
 
@@ -317,4 +319,54 @@ func namedTypeString(t types.Type) string {
 		return o.Name()
 	}
 	return ""
+}
+
+// dropDeadNewHelpers removes from the analysed function set the new helpers (not part of the pinned
+// tree, see normalize.go) that have no caller left — after the normalisation pre-pass inlined all
+// their call sites their definitions are dead code, and rules that enumerate "every function of the
+// package" must not judge them a second time out of context.
+func (p *Program) dropDeadNewHelpers() {
+	recorded := recordedAnchors()
+	if len(recorded) < 100 {
+		return
+	}
+	dead := map[*ssa.Function]bool{}
+	for _, fn := range p.Funcs {
+		if fn.Parent() != nil || fn.Synthetic != "" || fn.Object() == nil || fn.Object().Exported() {
+			continue
+		}
+		if _, ok := recorded[funcID(fn)]; ok {
+			continue
+		}
+		if _, renamed := p.alias[fn]; renamed {
+			continue
+		}
+		if len(p.callersOf(fn)) > 0 || p.addressTaken(fn) {
+			continue
+		}
+		if fn.Signature.Recv() != nil && p.implementsSomeInvokedMethod(fn) {
+			continue
+		}
+		dead[fn] = true
+	}
+	if len(dead) == 0 {
+		return
+	}
+	var kept []*ssa.Function
+	for _, fn := range p.Funcs {
+		root := fn
+		for root.Parent() != nil {
+			root = root.Parent()
+		}
+		if dead[root] {
+			delete(p.funcByID, funcID(fn))
+			continue
+		}
+		kept = append(kept, fn)
+	}
+	p.Funcs = kept
+	// caller / address-taken indexes were built including the dead functions' bodies
+	p.callers = nil
+	p.addrTaken = nil
+	p.invokedMethods = nil
 }
